@@ -205,7 +205,7 @@ func runCase(k *mon.Case) {
 	deps := randomDeployments(r, p, horizon)
 	g := chaingen.New(p, node.FamRegtest, r)
 	g.MaxTx = 1
-	s, err := sim.New(k, g, node.Config{UtxoCacheMaxSize: 1 << 26})
+	s, err := sim.New(k, g, node.Config{UtxoCacheMaxSize: 1 << 25})
 	if err != nil {
 		k.Failf("harness:open", "cannot open node: %v", err)
 		return
